@@ -59,6 +59,45 @@ pub fn run(args: &Args) -> Report {
                 }
             }
         }
+        // Purity under buffer reuse: the one-shot functions are handed the *same* buffers (same
+        // address, same length) with different contents on consecutive calls of one thread. A
+        // result must depend on the bytes, never on where they live.
+        if idx % 8 == 0 {
+            let clen = 1 + rng.usize_below(60);
+            let mut ctx_buf = String::with_capacity(clen);
+            let mut key_buf = [0u8; 32];
+            let mut in_buf = vec![0u8; n.min(3000)];
+            for round in 0..3 {
+                ctx_buf.clear();
+                for _ in 0..clen {
+                    ctx_buf.push((b'a' + rng.below(26) as u8) as char);
+                }
+                rng.fill(&mut key_buf);
+                rng.fill(&mut in_buf);
+                let checks: [(Mode, &str); 3] = [(Mode::Hash, "hash"), (Mode::Keyed(key_buf), "keyed"), (Mode::DeriveKey(ctx_buf.clone().into_bytes()), "derive")];
+                for (m, name) in checks.iter() {
+                    let want = specmodel::hash(m, &in_buf);
+                    let got = guarded(|| match m {
+                        Mode::Hash => *blake3::hash(&in_buf).as_bytes(),
+                        Mode::Keyed(_) => *blake3::keyed_hash(&key_buf, &in_buf).as_bytes(),
+                        Mode::DeriveKey(_) => blake3::derive_key(&ctx_buf, &in_buf),
+                    });
+                    let got2 = guarded(|| match m {
+                        Mode::DeriveKey(_) => *blake3::Hasher::new_derive_key(&ctx_buf).update(&in_buf).finalize().as_bytes(),
+                        _ => want,
+                    });
+                    rep.eval(format!("reuse/{}/{}/{}", name, n.min(3000), clen));
+                    rep.count("buffer_reuse_calls", 1);
+                    if got != Ok(want) || got2 != Ok(want) {
+                        rep.violation(
+                            format!("C01/oneshot/{}/depends-on-call-history", name),
+                            format!("round {} of consecutive calls through the same buffers (context {:?}, {} input bytes): got {:?} / {:?} want {}", round, ctx_buf, in_buf.len(), got.as_ref().map(|g| hex(g)), got2.as_ref().map(|g| hex(g)), hex(&want)),
+                            args.replay_args(idx, P::Native),
+                        );
+                    }
+                }
+            }
+        }
         if idx % 997 == 3 || n > (1 << 20) {
             rep.sample(Json::obj(vec![("len", Json::u(n)), ("modes", Json::s("hash,keyed,derive")), ("hash", Json::s(hex(&specmodel::hash(&Mode::Hash, &data))))]));
         }
